@@ -465,7 +465,7 @@ func (s *s1Sim) drive(op *s1op, done chan struct{}, cancel context.CancelFunc, a
 					time.Sleep(d)
 					s.c.SimTime += d
 					w.mu.Lock()
-					w.resetLag = 20 * time.Millisecond
+					w.resetLag, w.lagSeq = 20*time.Millisecond, w.hostEnd.entrySeq
 					w.mu.Unlock()
 				}
 				w.deliver(w.c2h)
